@@ -75,22 +75,22 @@ def not3 : Option Bool → Option Bool
 /-! ## parsing of literals into typed values -/
 
 def parseIntText (s : String) : R Int :=
-  let t := s.trimAscii.toString
-  match t.toInt? with
+  let t := trimStr s
+  match parseIntStr t with
   | some n => pure n
   | none =>
     -- "12.000" style numerics that are integers
-    match t.splitOn "." with
+    match splitStr t "." with
     | [a, b] =>
-      if !b.isEmpty && b.all (· == '0') then
-        match a.toInt? with
+      if !b.isEmpty && strAll b (· == '0') then
+        match parseIntStr a with
         | some n => pure n
         | none => throw (pgErr "22P02" s!"invalid input syntax for type numeric: \"{s}\"")
       else throw (.unsupported s!"non-integer numeric value \"{s}\" (LeanPG models integers only)")
     | _ => throw (pgErr "22P02" s!"invalid input syntax for type numeric: \"{s}\"")
 
 def parseBoolText (s : String) : R Bool :=
-  match s.trimAscii.toString.toLower with
+  match (trimStr s).toLower with
   | "t" | "true" | "yes" | "on" | "1" | "y" => pure true
   | "f" | "false" | "no" | "off" | "0" | "n" => pure false
   | _ => throw (pgErr "22P02" s!"invalid input syntax for type boolean: \"{s}\"")
@@ -98,7 +98,7 @@ def parseBoolText (s : String) : R Bool :=
 /-- split the inside of a composite literal `(a,"b c",)` into raw fields
     (`none` = NULL). Documentation 8.16.6 "Composite Type Input and Output Syntax". -/
 def splitComposite (s : String) : R (List (Option String)) :=
-  let cs := s.trimAscii.toString.toList
+  let cs := trimChars s.toList
   match cs with
   | '(' :: rest =>
     let rec go (cs : List Char) (cur : List Char) (quoted inQ : Bool) (acc : List (Option String)) (fuel : Nat) :
@@ -132,7 +132,7 @@ def splitComposite (s : String) : R (List (Option String)) :=
 
 /-- split an array literal `{a,"b",NULL}` (one dimension). Documentation 8.15.2. -/
 def splitArrayLit (s : String) : R (List (Option String)) :=
-  let cs := s.trimAscii.toString.toList
+  let cs := trimChars s.toList
   match cs with
   | '{' :: rest =>
     if rest == ['}'] then pure [] else
@@ -143,7 +143,7 @@ def splitArrayLit (s : String) : R (List (Option String)) :=
       | fuel + 1 =>
       let fin (cur : List Char) (quoted : Bool) : Option String :=
         let t := String.ofList cur.reverse
-        if !quoted && t.trimAscii.toString.toUpper == "NULL" then none else some (if quoted then t else t.trimAscii.toString)
+        if !quoted && (trimStr t).toUpper == "NULL" then none else some (if quoted then t else trimStr t)
       match cs with
       | [] => throw (pgErr "22P02" s!"malformed array literal: \"{s}\"")
       | c :: rest =>
@@ -228,7 +228,7 @@ def castScalar (te : TypeEnv) (name mods : String) (v : Value) : Option (R Value
   | "varchar" | "text" | "bpchar" | "name" | "regclass" | "jsonpath" | "unknown" => some (
     let s := v.toText
     if name == "varchar" && !mods.isEmpty then
-      match mods.toNat? with
+      match parseNatStr mods with
       | some lim =>
         -- explicit casts truncate silently, assignments raise 22001; the ledger only assigns
         if s.length > lim then throw (pgErr "22001" s!"value too long for type character varying({lim})")
@@ -467,7 +467,7 @@ def jsonConcat : JV → JV → JV
 
 /-- the narrow jsonpath shape the ledger renders: `$[<i>] == "<s>"` -/
 def parseJsonPathIdxEq (p : String) : Option (Nat × String) :=
-  let cs := p.trimAscii.toString.toList
+  let cs := trimChars p.toList
   match cs with
   | '$' :: '[' :: rest =>
     let (ds, rest) := takeDigits rest
@@ -501,17 +501,22 @@ def parseJsonPathIdxEq (p : String) : Option (Nat × String) :=
 /-! ## text / array helpers -/
 
 def splitOnStr (s sep : String) : List String :=
-  if sep.isEmpty then [s] else s.splitOn sep
+  if sep.isEmpty then [s] else splitStr s sep
 
-/-- SQL LIKE with `%` and `_` (documentation 9.7.1), backslash escapes the next char -/
-partial def likeMatch : List Char → List Char → Bool
-  | [], [] => true
-  | _ :: _, [] => false
-  | s, '%' :: p => likeMatch s p || (match s with | [] => false | _ :: s' => likeMatch s' ('%' :: p))
-  | [], _ :: _ => false
-  | c :: s, '_' :: p => let _ := c; likeMatch s p
-  | c :: s, '\\' :: d :: p => c == d && likeMatch s p
-  | c :: s, d :: p => c == d && likeMatch s p
+/-- SQL LIKE with `%` and `_` (documentation 9.7.1), backslash escapes the next
+    char. `fuel` ≥ |s| + |p| + 1 suffices (each step consumes a character of one). -/
+def likeMatchF : Nat → List Char → List Char → Bool
+  | 0, _, _ => false
+  | _ + 1, [], [] => true
+  | _ + 1, _ :: _, [] => false
+  | fuel + 1, s, '%' :: p =>
+    likeMatchF fuel s p || (match s with | [] => false | _ :: s' => likeMatchF fuel s' ('%' :: p))
+  | _ + 1, [], _ :: _ => false
+  | fuel + 1, _ :: s, '_' :: p => likeMatchF fuel s p
+  | fuel + 1, c :: s, '\\' :: d :: p => c == d && likeMatchF fuel s p
+  | fuel + 1, c :: s, d :: p => c == d && likeMatchF fuel s p
+
+def likeMatch (s p : List Char) : Bool := likeMatchF (s.length + p.length + 1) s p
 
 /-- `hashtext(s)`: an opaque injective tag in the model (the real function is a
     32-bit hash; only equality of lock keys matters to the ledger). Modelled as
@@ -599,7 +604,7 @@ def evalBinop (op : BinOp) (a b : Value) : R Value := do
       match acc with
       | none => none
       | some (.obj kvs) => jobjLookup k kvs
-      | some (.arr xs) => match k.toInt? with
+      | some (.arr xs) => match parseIntStr k with
         | some i => jsonGet (.arr xs) (.int i)
         | none => none
       | some _ => none) (some j)
@@ -734,7 +739,7 @@ def evalPureFn (name : String) (args : List Value) : Option (R Value) :=
   | "upper", [s] => some (pure (if s.isNull then .null else .text s.toText.toUpper))
   | "concat", _ => some (pure (.text (String.join ((args.filter (!·.isNull)).map Value.toText))))
   | "replace", [s, a, b] => some (pure (if s.isNull || a.isNull || b.isNull then .null
-      else if a.toText.isEmpty then .text s.toText else .text (s.toText.replace a.toText b.toText)))
+      else if a.toText.isEmpty then .text s.toText else .text (replaceStr s.toText a.toText b.toText)))
   | "timezone", [z, t] => some (
       -- `t AT TIME ZONE z`: every timestamp of the model is UTC wall-clock time
       if z.isNull || t.isNull then pure .null
